@@ -367,6 +367,9 @@ impl Runner {
         self.seen = evs.len();
         if !items.is_empty() {
             self.out.push(format!("@{}{} {}", self.vt, tag, items.join(" ")));
+        } else if tag == "R" {
+            // a repeat event that emitted nothing is recorded too, so that every repeat has an item
+            self.out.push(format!("@{}R -", self.vt));
         }
     }
     pub fn tick(&mut self) {
